@@ -55,7 +55,7 @@ def run(prop, tier, seed, out):
             out.violation("a recorded history reaches a state of Keys.tla that violates %s" % res.violated, {"tlc": res.out[-3000:]})
         out.add_tlc(res)
         rejected = [i for i in ids if i not in acc]
-        # binding self-test: corrupt the wrapper epoch of one value / swap derived flag: must be rejected
+        # binding self-test: one value protected under a wrapper epoch that never existed / derived flag swapped: must be rejected
         rng = random.Random(seed)
         cp = scr.path("corrupt.ndjson")
         n = 0
@@ -68,7 +68,9 @@ def run(prop, tier, seed, out):
                 i, r = rng.choice(vals)
                 v = rng.choice(r["vals"])
                 if rng.random() < 0.5:
-                    v["w"] += 1 + rng.randrange(3)
+                    # a wrapper epoch that never existed in this history (a neighbouring epoch can be explained by a
+                    # rotation that overlaps the event in a concurrent history)
+                    v["w"] += 50 + rng.randrange(3)
                 else:
                     v["der"] = not v["der"]
                 f.write(json.dumps(h) + "\n")
